@@ -6,8 +6,9 @@ package main
 //               is called directly with an in-memory server stream; every response goes to the
 //               real WALBatchApplier, a gap is answered through Primary.NegativeAcknowledge,
 //               an applied delivery through Primary.Acknowledge - the loop a replica runs, without
-//               a network. Shows what the primary's own fetch policy (100 entries) does to
-//               transactions.  header: start=N (the StartSequence the replica asks for)
+//               a network. The primary's fetch (100 entries, extended to the end of the
+//               transaction since f62340e) must never leave a transaction torn: no known-
+//               finding class excuses a failure here.  header: start=N (the StartSequence the replica asks for)
 // kind=replica  a real replication.Replica (NewReplica(0, recorder, cfg) + Start) over loopback
 //               gRPC against a scripted primary that serves the log from the requested
 //               StartSequence in chunks.  header: chunk=N entries per response, codec=none|zstd|
@@ -64,7 +65,13 @@ func c13WriteHistory(w *wal.WAL, lines [][]string) (ref []c13Entry, err error) {
 }
 
 // judge an applied list against the log: the common, model-free part of the oracle
-func c13JudgeApplied(o *c13Oracle, label string, app []c13Entry, cur uint64) {
+// primaryProduced: the deliveries come from the real Primary, which (since f62340e) never cuts a
+// transaction: the class cut_group_acknowledged does not excuse anything then
+func c13JudgeApplied(o *c13Oracle, label string, app []c13Entry, cur uint64, primaryProduced bool) {
+	cutClass := "cut_group_acknowledged"
+	if primaryProduced {
+		cutClass = ""
+	}
 	d := &c13Deliv{form: "seg", i: -1, j: -1, failat: -1}
 	nBefore := o.n
 	if !o.tainted {
@@ -78,7 +85,7 @@ func c13JudgeApplied(o *c13Oracle, label string, app []c13Entry, cur uint64) {
 				if o.restarted {
 					cls = "replica_restart_replays"
 				} else if o.midGroup(o.n) {
-					cls = "cut_group_acknowledged" // the rest of a cut transaction was skipped
+					cls = cutClass // the rest of a cut transaction was skipped
 				}
 				o.fail(cls, fmt.Sprintf("%s: with L[0,%d) applied the replica applied {%s} where the primary's history continues with %s", label, o.n+x, app[x].String(), want))
 				o.tainted = true
@@ -101,7 +108,7 @@ func c13JudgeApplied(o *c13Oracle, label string, app []c13Entry, cur uint64) {
 	if !o.tainted && o.n < len(o.L) && o.L[o.n].seq <= cur {
 		cls := ""
 		if o.midGroup(o.n) && o.L[o.n].seq == cur {
-			cls = "cut_group_acknowledged"
+			cls = cutClass
 		}
 		o.fail(cls, fmt.Sprintf("%s: reports %d as applied, but L[%d] = {%s} is not applied", label, cur, o.n, o.L[o.n].String()))
 	}
@@ -181,7 +188,7 @@ func runC13Emit(c *Case, out func(string)) {
 				} else if err == nil {
 					p.Acknowledge(actx, &rpb.Ack{AcknowledgedUpTo: ret})
 				}
-				c13JudgeApplied(o, fmt.Sprintf("delivery %d (%d entries from %d)", deliveries, len(r.Entries), r.Entries[0].SequenceNumber), app, ap.GetMaxApplied())
+				c13JudgeApplied(o, fmt.Sprintf("delivery %d (%d entries from %d)", deliveries, len(r.Entries), r.Entries[0].SequenceNumber), app, ap.GetMaxApplied(), true)
 			case <-time.After(120 * time.Millisecond):
 				idle++
 				if ap.GetMaxApplied() < lastSeq && idle < 6 {
@@ -212,11 +219,7 @@ func runC13Emit(c *Case, out func(string)) {
 	}
 	if !hung && !o.tainted && o.n < len(o.L) && len(o.kfs) == 0 {
 		// the stream was quiet for 6 polls with entries outstanding: nothing more will come
-		cls := ""
-		if o.midGroup(o.n) {
-			cls = "cut_group_acknowledged"
-		}
-		o.fail(cls, fmt.Sprintf("the primary stopped sending with L[%d] = {%s} never delivered (cursor %d)", o.n, o.L[o.n].String(), o.cur))
+		o.fail("", fmt.Sprintf("the primary stopped sending with L[%d] = {%s} never delivered (cursor %d)", o.n, o.L[o.n].String(), o.cur))
 	}
 	o.verdict(out)
 	nt := 0
@@ -417,7 +420,7 @@ func runC13Replica(c *Case, out func(string)) {
 		if len(app) > 0 {
 			samples++
 			quiet = 0
-			c13JudgeApplied(o, fmt.Sprintf("sample %d", samples), app, cur)
+			c13JudgeApplied(o, fmt.Sprintf("sample %d", samples), app, cur, false)
 		} else {
 			quiet++
 			if cur < o.cur {
